@@ -26,3 +26,17 @@ Definition view_eqb (a b : view) : bool :=
 Definition transparent_on (crc : bytes -> N) (bufsz : N) (can_write : bool) (max_novel : N) (known : list bytes) (idx : option bytes) (journal : bytes) : bool :=
   view_eqb (view_of_boot crc known (bootstrap_opt_index crc bufsz can_write max_novel idx journal))
            (view_of_boot crc known (bootstrap_no_index crc bufsz can_write max_novel journal)).
+
+(* ---- vocabulary of the validated-index theorem ---- *)
+
+(* the chunk addresses an index-free scan of the journal finds *)
+Definition journal_chunk_addrs (crc : bytes -> N) (bufsz : N) (j : bytes) : list bytes :=
+  match process crc bufsz kind_ok 0 j with
+  | POk _ items => map (fun it : N * prec => p_addr (snd it)) (filter (fun it : N * prec => p_kind (snd it) =? kind_chunk) items)
+  | _ => []
+  end.
+
+(* h is told apart from every chunk address of the journal by its 16-byte prefix (the code's own assumption:
+   "a 16-byte prefix of their addr which is assumed to be globally unique") *)
+Definition a16_distinct (crc : bytes -> N) (bufsz : N) (j h : bytes) : Prop :=
+  forall k, In k (journal_chunk_addrs crc bufsz j) -> addr16 k = addr16 h -> k = h.
